@@ -46,6 +46,10 @@ type Program struct {
 	globalRx map[*ssa.Global]string // unexported package-level regexps of the module, by pattern
 
 	nonNegFields map[any]bool // integer fields that only ever hold non-negative values (loops.go)
+
+	fieldWriters map[fieldKey]map[*ssa.Function]bool // functions with a direct store to a struct field
+	ptrWriters   map[string]map[*ssa.Function]bool   // functions storing through a plain pointer, by pointee type
+	mayWriteMemo map[fieldKey]map[*ssa.Function]bool
 }
 
 // GlobalRegexp returns the pattern of an unexported package-level variable of the module that
